@@ -105,7 +105,8 @@ def impl_main(payload):
         g.command_array = np.array(base, dtype=int)
         L = g.get_number_local_optimization_params()
         cs = rs.uniform(0.3, 2.0, size=L) * rs.choice([-1, 1], size=L)
-        g.set_local_optimization_params(cs)
+        # constants arrive as a numpy vector (what scipy hands over) or as plain Python floats (what a user sets)
+        g.set_local_optimization_params(cs if t % 2 == 0 else [float(v) for v in cs])
         M = 3
         x = rs.uniform(0.3, 2.0, size=(M, D)) * rs.choice([-1, 1], size=(M, D))
         util = sb.get_utilized_commands(np.array(base, dtype=int))
